@@ -27,6 +27,7 @@ type MerklePatriciaTrie struct {
 	ChangeCollector ChangeCollectorI
 	Version         Sequence
 	missingNodeKeys []Key
+	missingMutex    sync.Mutex // guards missingNodeKeys, which is also appended to by readers holding only the read lock
 	cache           *statecache.TransactionCache
 	deleteNodes     []Node // delete nodes that added when sync from remote
 }
@@ -76,13 +77,17 @@ func (mpt *MerklePatriciaTrie) getNode(key Key) (n Node, err error) {
 }
 
 func (mpt *MerklePatriciaTrie) addMissingNodeKeys(key Key) {
+	mpt.missingMutex.Lock()
 	mpt.missingNodeKeys = append(mpt.missingNodeKeys, key)
+	mpt.missingMutex.Unlock()
 }
 
 func (mpt *MerklePatriciaTrie) GetMissingNodeKeys() []Key {
 	mpt.mutex.RLock()
+	mpt.missingMutex.Lock()
 	keys := make([]Key, len(mpt.missingNodeKeys))
 	copy(keys, mpt.missingNodeKeys)
+	mpt.missingMutex.Unlock()
 	mpt.mutex.RUnlock()
 	return keys
 }
